@@ -27,14 +27,14 @@ func init() {
 			"names falling into the open C19 finding (initialism run + final two-letter word) are not generated here; C19 reports that defect",
 			"text-unmarshalable leaves (time.Time, net.IP) appear in the types but their variables are never set: the env chain has no text-unmarshaler step, which is outside the statement's domain",
 		},
-		MinDistinct: map[string]int{"quick": 4000, "thorough": 100000},
+		MinDistinct: map[string]int{"quick": 10000, "thorough": 300000},
 		MinCounters: map[string]map[string]int64{
 			"quick":    {"variables_set_and_compared": 20000, "leaves_expected_unset": 20000, "bad_literal_probes_rejected": 400, "noise_variables_present": 40000},
 			"thorough": {"variables_set_and_compared": 800000},
 		},
 		Plan: func(tier string) fw.Plan {
 			if tier == "thorough" {
-				return fw.Plan{Shards: 16, CasesPerShard: 15000, TimeoutSec: 3000}
+				return fw.Plan{Shards: 64, CasesPerShard: 15000, Parallel: 16, TimeoutSec: 3000}
 			}
 			return fw.Plan{Shards: 16, CasesPerShard: 2500, TimeoutSec: 600}
 		},
